@@ -642,6 +642,8 @@ Definition request_melt_quote (cfg : config) (unit_ok decodes : bool) (req h msa
   if (msat <=? 0) || (two63 <=? msat) then fail EInvoice else
   let invoice_sat := (msat + 999) / 1000 in
   call mq <- GetMintQuoteByHash h ;;
+  (* a failed lookup is a storage error, not "no such mint quote" (fix: an own invoice must never be quoted as a foreign one) *)
+  match mq with RErr => fail EDb | ROk _ =>
   let internal := match same_invoice mq req with Some _ => true | None => false end in
   let plan : result (bool * Z * Z) :=
     match mpp with
@@ -669,6 +671,7 @@ Definition request_melt_quote (cfg : config) (unit_ok decodes : bool) (req h msa
       | ROk _ => Ret (Ok q)
       end
     end
+  end
   end.
 
 Definition with_state (q : lquote) (st pre : Z) : lquote :=
